@@ -85,12 +85,25 @@ vars == <<kase>>
 
 (* ------------------------------------------------------------------ small helpers --- *)
 Gi(k)        == <<k, 0, 1>>
+\* TLC keeps [i \in S |-> e] as a closure and re-evaluates e on every application, so nested
+\* matrix expressions cost the PRODUCT of their sizes.  Fix forces a matrix to an explicit
+\* value; every intermediate matrix below is bound by a LET name or passed as an argument
+\* (both are evaluated once) after being fixed.  (Measured: a 3x2 chordal case 45 s -> 10 ms.)
+Fix(A)       == TLCEval([i \in 1..Len(A) |-> TLCEval(A[i])])
+XMul(A, B)   == Fix(MMul(A, B))
+XAdd(A, B)   == Fix(MAdd(A, B))
+XSub(A, B)   == Fix(MSub(A, B))
+XHerm(A)     == Fix(MHerm(A))
+XAdj(A)      == Fix(MAdj(A))
+XScale(c, A) == Fix(MScale(c, A))
+XInv(A)      == XScale(GInv(MDet(A)), XAdj(A))                  \* det # 0
 \* k * A for a Gaussian-INTEGER matrix A (all denominators 1): no gcd work
-IScale(k, A) == [i \in 1..MRows(A) |-> [j \in 1..MCols(A) |-> <<k * A[i][j][1], k * A[i][j][2], 1>>]]
-IDiag(n, k)  == [i \in 1..n |-> [j \in 1..n |-> IF i = j THEN Gi(k) ELSE GZero]]
-DiagMat(c)   == [i \in 1..Len(c) |-> [j \in 1..Len(c) |-> IF i = j THEN Gi(c[i]) ELSE GZero]]
-Cols(A, js)  == [i \in 1..MRows(A) |-> [t \in 1..Len(js) |-> A[i][js[t]]]]
+IScale(k, A) == Fix([i \in 1..MRows(A) |-> [j \in 1..MCols(A) |-> <<k * A[i][j][1], k * A[i][j][2], 1>>]])
+IDiag(n, k)  == Fix([i \in 1..n |-> [j \in 1..n |-> IF i = j THEN Gi(k) ELSE GZero]])
+DiagMat(c)   == Fix([i \in 1..Len(c) |-> [j \in 1..Len(c) |-> IF i = j THEN Gi(c[i]) ELSE GZero]])
+Cols(A, js)  == Fix([i \in 1..MRows(A) |-> [t \in 1..Len(js) |-> A[i][js[t]]]])
 IsGInt(A)    == \A i \in 1..MRows(A) : \A j \in 1..MCols(A) : A[i][j][3] = 1
+Nnz(v)       == Cardinality({i \in 1..MRows(v) : ~GIsZero(v[i][1])})     \* non-zero entries of a column vector
 IntFrob(A)   == MFrob2(A)[1]                      \* integer ||A||_F^2 of a Gaussian-integer matrix
 Min(a, b)    == IF a < b THEN a ELSE b
 Max(a, b)    == IF a < b THEN b ELSE a
@@ -112,14 +125,14 @@ Pick(x, k)    == (x \div 8) % k                   \* 0..k-1
 Val(x, a)     == Pick(x, 2 * a + 1) - a           \* -a..a
 \* rows x cols Gaussian-integer matrix from stream s, consuming 2*rows*cols numbers after offset off
 GMat(s, off, r, c, a, real) ==
-    [i \in 1..r |-> [j \in 1..c |->
+    Fix([i \in 1..r |-> [j \in 1..c |->
         LET t == off + 2 * ((i - 1) * c + (j - 1))
-        IN  G(Val(s[t + 1], a), IF real THEN 0 ELSE Val(s[t + 2], a))]]
+        IN  G(Val(s[t + 1], a), IF real THEN 0 ELSE Val(s[t + 2], a))]])
 \* every matrix over {-1,0,1} + i{-1,0,1}: the digits of id in base 9
 ExhMat(id, r, c) ==
-    [i \in 1..r |-> [j \in 1..c |->
+    Fix([i \in 1..r |-> [j \in 1..c |->
         LET dg == (id \div Pow(9, (i - 1) * c + (j - 1))) % 9
-        IN  G((dg % 3) - 1, (dg \div 3) - 1)]]
+        IN  G((dg % 3) - 1, (dg \div 3) - 1)]])
 ShapeOf(id) == Shapes[(id % Len(Shapes)) + 1]
 
 NthSmallest(S, k) == CHOOSE e \in S : Cardinality({y \in S : y < e}) = k
@@ -129,8 +142,8 @@ PermFrom(x, S) == IF S = {} THEN <<>>
                        IN  <<e>> \o PermFrom(LcgNext(x), S \ {e})
 IPow(k) == CASE k % 4 = 0 -> GOne [] k % 4 = 1 -> GI [] k % 4 = 2 -> GNeg(GOne) [] OTHER -> GNeg(GI)
 \* U A for the signed-permutation unitary U with (U A)[i] = i^ph[i] A[perm[i]]
-SPerm(perm, ph, A) == [i \in 1..MRows(A) |-> [j \in 1..MCols(A) |-> GMul(IPow(ph[i]), A[perm[i]][j])]]
-SPermOf(x, r) == [perm |-> PermFrom(x, 1..r), ph |-> [i \in 1..r |-> Pick(LcgIter(x, i + 2), 4)]]
+SPerm(perm, ph, A) == Fix([i \in 1..MRows(A) |-> [j \in 1..MCols(A) |-> GMul(IPow(ph[i]), A[perm[i]][j])]])
+SPermOf(x, r) == [perm |-> PermFrom(x, 1..r), ph |-> TLCEval([i \in 1..r |-> Pick(LcgIter(x, i + 2), 4)])]
 
 \* indexes in S ordered by decreasing / increasing value of c (values distinct on S)
 RECURSIVE IdxDesc(_, _)
@@ -149,21 +162,21 @@ Init == kase = None
 \* fraction-free projector onto the column space of a full-column-rank Gaussian-integer A:
 \* P = num / den, den = det(A^H A) > 0 (an integer), num = A adj(A^H A) A^H (Gaussian integers)
 ProjND(A) ==
-    LET AH == MHerm(A)
-        Gm == MMul(AH, A)
+    LET AH == XHerm(A)
+        Gm == XMul(AH, A)
         d  == MDet(Gm)
     IN  IF d[1] = 0 THEN [den |-> 0, num |-> <<>>]
-        ELSE [den |-> d[1], num |-> MMul(MMul(A, MAdj(Gm)), AH)]
+        ELSE [den |-> d[1], num |-> XMul(XMul(A, XAdj(Gm)), AH)]
 
 ProjRec(id, A, M) ==
     LET p  == ProjND(A)
         m  == MRows(A)
     IN  IF p.den = 0 THEN [valid |-> FALSE]
-        ELSE LET oN == MSub(IDiag(m, p.den), p.num)
-                 rN == MSub(IDiag(m, p.den), IScale(2, p.num))
+        ELSE LET oN == XSub(IDiag(m, p.den), p.num)
+                 rN == XSub(IDiag(m, p.den), IScale(2, p.num))
              IN [valid |-> TRUE, kind |-> "proj", id |-> id, A |-> A, M |-> M, den |-> p.den,
                  num |-> p.num, onum |-> oN, rnum |-> rN,
-                 PM |-> MMul(p.num, M), oPM |-> MMul(oN, M), RM |-> MMul(rN, M)]
+                 PM |-> XMul(p.num, M), oPM |-> XMul(oN, M), RM |-> XMul(rN, M)]
 
 ProjX(id) == LET sh == ShapeOf(id)  s == Stream(id, 4 * sh[1])
              IN  ProjRec(id, ExhMat(id, sh[1], sh[2]), GMat(s, 0, sh[1], 2, 2, FALSE))
@@ -177,23 +190,23 @@ Proj == /\ Kind \in {"proj", "projx"} /\ kase = None
                               IN  r.valid /\ kase' = r
 
 IsProj == kase.kind = "proj"
-ProjHermitian     == IsProj => kase.num = MHerm(kase.num) /\ IsGInt(kase.num) /\ kase.den > 0
-ProjIdempotent    == IsProj => MMul(kase.num, kase.num) = IScale(kase.den, kase.num)
-ProjFixesA        == IsProj => MMul(kase.num, kase.A) = IScale(kase.den, kase.A)
-ProjComplementary == IsProj => /\ MAdd(kase.num, kase.onum) = IDiag(MRows(kase.A), kase.den)
-                               /\ MIsZero(MMul(kase.onum, kase.A))
-                               /\ MIsZero(MMul(kase.num, kase.onum))
-                               /\ MMul(kase.onum, kase.onum) = IScale(kase.den, kase.onum)
-ReflectTwice      == IsProj => /\ MMul(kase.rnum, kase.rnum) = IDiag(MRows(kase.A), kase.den * kase.den)
-                               /\ MMul(kase.rnum, kase.RM) = IScale(kase.den * kase.den, kase.M)
+ProjHermitian     == IsProj => kase.num = XHerm(kase.num) /\ IsGInt(kase.num) /\ kase.den > 0
+ProjIdempotent    == IsProj => XMul(kase.num, kase.num) = IScale(kase.den, kase.num)
+ProjFixesA        == IsProj => XMul(kase.num, kase.A) = IScale(kase.den, kase.A)
+ProjComplementary == IsProj => /\ XAdd(kase.num, kase.onum) = IDiag(MRows(kase.A), kase.den)
+                               /\ MIsZero(XMul(kase.onum, kase.A))
+                               /\ MIsZero(XMul(kase.num, kase.onum))
+                               /\ XMul(kase.onum, kase.onum) = IScale(kase.den, kase.onum)
+ReflectTwice      == IsProj => /\ XMul(kase.rnum, kase.rnum) = IDiag(MRows(kase.A), kase.den * kase.den)
+                               /\ XMul(kase.rnum, kase.RM) = IScale(kase.den * kase.den, kase.M)
 ProjRank          == IsProj => MTrace(kase.num) = Gi(MCols(kase.A) * kase.den)
-ProjSplits        == IsProj => MAdd(kase.PM, kase.oPM) = IScale(kase.den, kase.M)
+ProjSplits        == IsProj => XAdd(kase.PM, kase.oPM) = IScale(kase.den, kase.M)
 
 (* -------------------------------------------------------------- chordal distance --- *)
 \* tr(P_A P_B) dA dB ; real because both numerators are Hermitian
-TrNum(pa, pb)    == MTrace(MMul(pa.num, pb.num))
+TrNum(pa, pb)    == MTrace(XMul(pa.num, pb.num))
 D2Trace(pa, pb, n) == RNorm(n * pa.den * pb.den - TrNum(pa, pb)[1], pa.den * pb.den)
-D2Frob(pa, pb)   == RNorm(IntFrob(MSub(IScale(pb.den, pa.num), IScale(pa.den, pb.num))),
+D2Frob(pa, pb)   == RNorm(IntFrob(XSub(IScale(pb.den, pa.num), IScale(pa.den, pb.num))),
                           2 * pa.den * pa.den * pb.den * pb.den)
 
 ChordRec(id) ==
@@ -206,7 +219,7 @@ ChordRec(id) ==
         pa == ProjND(A)
         pb == ProjND(B)
     IN  IF pa.den = 0 \/ pb.den = 0 \/ GIsZero(MDet(T)) THEN [valid |-> FALSE]
-        ELSE LET AT == MMul(A, T)
+        ELSE LET AT == XMul(A, T)
                  u  == SPermOf(s[4 * m * n + 2 * n * n + 1], m)
                  UA == SPerm(u.perm, u.ph, A)
                  UB == SPerm(u.perm, u.ph, B)
@@ -241,7 +254,7 @@ ChordRange           == IsChord => RLe(RZero, kase.d2)
 \*   delta' = delta + d num[k][k]            (matrix determinant lemma)
 \*   num'   = (num delta' - d num[:,k] num[k,:]) / delta      (exact division)
 \* The sweep is defined only while every 1 + d X_kk # 0, i.e. every A + D_k is invertible.
-DiagK(dd, k) == [i \in 1..Len(dd) |-> [j \in 1..Len(dd) |-> IF i = j /\ i <= k THEN Gi(dd[i]) ELSE GZero]]
+DiagK(dd, k) == Fix([i \in 1..Len(dd) |-> [j \in 1..Len(dd) |-> IF i = j /\ i <= k THEN Gi(dd[i]) ELSE GZero]])
 DiagSeqK(dd, k) == [i \in 1..Len(dd) |-> IF i <= k THEN dd[i] ELSE 0]
 
 SmwStart(id) ==
@@ -252,8 +265,8 @@ SmwStart(id) ==
         dt == MDet(A)
         dd == [i \in 1..n |-> <<1, 2, 3, -2, 5>>[Pick(s[2 * n * n + i], 5) + 1]]
     IN  IF GIsZero(dt) THEN [valid |-> FALSE]
-        ELSE [valid |-> TRUE, kind |-> "smw", id |-> id, A |-> A, dd |-> dd, k |-> 0, num |-> MAdj(A),
-              delta |-> dt, inv0 |-> MInv(A), diagk |-> DiagSeqK(dd, 0), expInv |-> MInv(A)]
+        ELSE [valid |-> TRUE, kind |-> "smw", id |-> id, A |-> A, dd |-> dd, k |-> 0, num |-> XAdj(A),
+              delta |-> dt, inv0 |-> XInv(A), diagk |-> DiagSeqK(dd, 0), expInv |-> XInv(A)]
 
 SmwPick == /\ Kind = "smw" /\ kase = None
            /\ \E id \in Lo..Hi : LET r == SmwStart(id) IN r.valid /\ kase' = r
@@ -266,17 +279,17 @@ SmwStep == /\ kase.kind = "smw" /\ kase.k < Len(kase.dd)
                   dl == GAdd(kase.delta, GMul(d, X[k][k]))
               IN  /\ ~GIsZero(dl)
                   /\ kase' = [kase EXCEPT !.k = k, !.delta = dl,
-                        !.num = [i \in 1..n |-> [j \in 1..n |->
-                                    GDiv(GSub(GMul(X[i][j], dl), GMul(d, GMul(X[i][k], X[k][j]))), kase.delta)]],
+                        !.num = Fix([i \in 1..n |-> [j \in 1..n |->
+                                    GDiv(GSub(GMul(X[i][j], dl), GMul(d, GMul(X[i][k], X[k][j]))), kase.delta)]]),
                         !.diagk = DiagSeqK(kase.dd, k),
-                        !.expInv = MInv(MAdd(kase.A, DiagK(kase.dd, k)))]
+                        !.expInv = XInv(XAdd(kase.A, DiagK(kase.dd, k)))]
 
 IsSmw == kase.kind = "smw"
-SmwIsInverse == IsSmw => LET B == MAdd(kase.A, DiagK(kase.dd, kase.k))
+SmwIsInverse == IsSmw => LET B == XAdd(kase.A, DiagK(kase.dd, kase.k))
                          IN  /\ kase.delta = MDet(B)
-                             /\ kase.num = MAdj(B)
-                             /\ MMul(B, kase.num) = MScale(kase.delta, MIdent(Len(kase.dd)))
-                             /\ kase.expInv = MScale(GInv(kase.delta), kase.num)
+                             /\ kase.num = XAdj(B)
+                             /\ XMul(B, kase.num) = XScale(kase.delta, IDiag(Len(kase.dd), 1))
+                             /\ kase.expInv = XScale(GInv(kase.delta), kase.num)
 
 (* ------------------------------------------------------------- unit conversions --- *)
 \* A power m * 10^e W (m in 1..9).  On the decade lattice (m = 1) everything is an integer:
@@ -322,10 +335,10 @@ EbLaw == IsEb => /\ kase.b \in 1..10 /\ kase.snrLin.m = kase.b /\ kase.snrLin.e 
 HouseBasis(v, u) ==
     LET n  == MRows(v)
         nu == IntFrob(v)
-    IN  SPerm(u.perm, u.ph, MSub(IDiag(n, nu), IScale(2, MMul(v, MHerm(v)))))
+    IN  SPerm(u.perm, u.ph, XSub(IDiag(n, nu), IScale(2, XMul(v, XHerm(v)))))
 \* projector numerator onto the columns js of Q (denominator nu^2); js may be empty
 ProjCols(Q, js) == IF js = <<>> THEN MZero(MRows(Q), MRows(Q))
-                   ELSE LET S == Cols(Q, js) IN MMul(S, MHerm(S))
+                   ELSE LET S == Cols(Q, js) IN XMul(S, XHerm(S))
 \* first n of a LCG-driven ordering of 1..(n+2): n distinct positive integers
 Weights(x, n) == Prefix(PermFrom(x, 1..(n + 2)), n)
 
@@ -333,20 +346,20 @@ EigRec(id) ==
     LET N  == ShapeOf(id)[1]
         s  == Stream(id, 2 * N + 8)
         real == Pick(s[2 * N + 1], 4) = 0
-        v  == GMat(s, 0, N, 1, 1, real)
+        v  == GMat(s, 0, N, 1, Alpha, real)
         nu == IntFrob(v)
-    IN  IF nu = 0 THEN [valid |-> FALSE]
-        ELSE LET u == IF real THEN [perm |-> PermFrom(s[2 * N + 2], 1..N), ph |-> [i \in 1..N |-> 2 * Pick(s[2 * N + 2 + (i % 5)], 2)]]
+    IN  IF Nnz(v) < 2 THEN [valid |-> FALSE]          \* a single non-zero entry gives a diagonal Q
+        ELSE LET u == IF real THEN [perm |-> PermFrom(s[2 * N + 2], 1..N), ph |-> TLCEval([i \in 1..N |-> 2 * Pick(s[2 * N + 2 + (i % 5)], 2)])]
                       ELSE SPermOf(s[2 * N + 2], N)
                  Q   == HouseBasis(v, u)
                  c   == Weights(s[2 * N + 3], N)
-                 H   == MMul(MMul(Q, DiagMat(c)), MHerm(Q))
+                 H   == XMul(XMul(Q, DiagMat(c)), XHerm(Q))
                  n   == 1 + Pick(s[2 * N + 4], N)
                  top == Prefix(IdxDesc(c, 1..N), n)
                  bot == Prefix(IdxAsc(c, 1..N), n)
                  rest == Suffix(IdxDesc(c, 1..N), n)
              IN [valid |-> TRUE, kind |-> "eig", id |-> id, H |-> H, n |-> n, Q |-> Q, c |-> c, nu |-> nu,
-                 den |-> nu * nu, top |-> top, bot |-> bot,
+                 den |-> nu * nu, top |-> top, bot |-> bot, tooMany |-> N + 1,     \* peig(H, N + 1) must raise ValueError
                  peigD |-> [t \in 1..n |-> c[top[t]] * nu * nu],
                  leigD |-> [t \in 1..n |-> c[bot[t]] * nu * nu],
                  domNum |-> ProjCols(Q, top), leastNum |-> ProjCols(Q, bot), restNum |-> ProjCols(Q, rest)]
@@ -354,22 +367,22 @@ Eig == /\ Kind = "eig" /\ kase = None
        /\ \E id \in Lo..Hi : LET r == EigRec(id) IN r.valid /\ kase' = r
 IsEig == kase.kind = "eig"
 EigSpectrum == IsEig => LET N == MRows(kase.H) IN
-                  /\ kase.H = MHerm(kase.H)
-                  /\ MMul(MHerm(kase.Q), kase.Q) = IDiag(N, kase.den)                       \* orthogonal columns
-                  /\ MMul(kase.H, kase.Q) = MMul(kase.Q, DiagMat([k \in 1..N |-> kase.c[k] * kase.den]))  \* H q_k = lambda_k q_k
+                  /\ kase.H = XHerm(kase.H)
+                  /\ XMul(XHerm(kase.Q), kase.Q) = IDiag(N, kase.den)                       \* orthogonal columns
+                  /\ XMul(kase.H, kase.Q) = XMul(kase.Q, DiagMat([k \in 1..N |-> kase.c[k] * kase.den]))  \* H q_k = lambda_k q_k
                   /\ \A i, j \in 1..N : i # j => kase.c[i] # kase.c[j]                     \* no ties
 EigSelectors == IsEig =>
                   /\ \A t \in 1..(kase.n - 1) : kase.peigD[t] > kase.peigD[t + 1] /\ kase.leigD[t] < kase.leigD[t + 1]
                   /\ \A k \in 1..Len(kase.c) : k \notin SeqToSet(kase.top) => kase.c[k] * kase.den < kase.peigD[kase.n]
                   /\ \A k \in 1..Len(kase.c) : k \notin SeqToSet(kase.bot) => kase.c[k] * kase.den > kase.leigD[kase.n]
-                  /\ MMul(kase.domNum, kase.domNum) = IScale(kase.den, kase.domNum)
-                  /\ MMul(kase.leastNum, kase.leastNum) = IScale(kase.den, kase.leastNum)
-                  /\ MAdd(kase.domNum, kase.restNum) = IDiag(MRows(kase.H), kase.den)   \* dominant n (+) least N-n = everything
+                  /\ XMul(kase.domNum, kase.domNum) = IScale(kase.den, kase.domNum)
+                  /\ XMul(kase.leastNum, kase.leastNum) = IScale(kase.den, kase.leastNum)
+                  /\ XAdd(kase.domNum, kase.restNum) = IDiag(MRows(kase.H), kase.den)   \* dominant n (+) least N-n = everything
                   /\ MTrace(kase.domNum) = Gi(kase.n * kase.den)
-                  /\ MMul(kase.H, kase.domNum) = MMul(kase.domNum, kase.H)              \* invariant subspace
+                  /\ XMul(kase.H, kase.domNum) = XMul(kase.domNum, kase.H)              \* invariant subspace
 
 \* The same projector through the generic formula A (A^H A)^-1 A^H (ties the two families together)
-EigProjectorIsProjection == IsEig /\ MRows(kase.H) <= 4 =>
+EigProjectorIsProjection == IsEig /\ MRows(kase.H) <= 4 /\ kase.nu <= 4 =>        \* (bounds keep det(Q_sel^H Q_sel) = nu^(2n) small)
                   LET p == ProjND(Cols(kase.Q, kase.top))
                   IN  IScale(p.den, kase.domNum) = IScale(kase.den, p.num)
 
@@ -378,19 +391,19 @@ SvdRec(id) ==
         s  == Stream(id, 2 * m + 2 * nc + 10)
         o  == 2 * m + 2 * nc
         real == Pick(s[o + 1], 3) = 0
-        vu == GMat(s, 0, m, 1, 1, real)
-        vw == GMat(s, 2 * m, nc, 1, 1, real)
+        vu == GMat(s, 0, m, 1, Alpha, real)
+        vw == GMat(s, 2 * m, nc, 1, Alpha, real)
         nuU == IntFrob(vu)
         nuW == IntFrob(vw)
-    IN  IF nuU = 0 \/ nuW = 0 THEN [valid |-> FALSE]
-        ELSE LET rp(x, k) == [perm |-> PermFrom(x, 1..k), ph |-> [i \in 1..k |-> IF real THEN 2 * Pick(LcgIter(x, i), 2) ELSE Pick(LcgIter(x, i), 4)]]
+    IN  IF Nnz(vu) < Min(2, m) \/ Nnz(vw) < Min(2, nc) THEN [valid |-> FALSE]
+        ELSE LET rp(x, k) == [perm |-> PermFrom(x, 1..k), ph |-> TLCEval([i \in 1..k |-> IF real THEN 2 * Pick(LcgIter(x, i), 2) ELSE Pick(LcgIter(x, i), 4)])]
                  Qu == HouseBasis(vu, rp(s[o + 2], m))
                  Qw == HouseBasis(vw, rp(s[o + 3], nc))
                  c0 == Weights(s[o + 4], r)
                  lowest == IdxAsc(c0, 1..r)[1]
                  \* optionally a rank-deficient matrix: the smallest weight becomes 0
                  c  == IF r >= 2 /\ Pick(s[o + 5], 4) = 0 THEN [k \in 1..r |-> IF k = lowest THEN 0 ELSE c0[k]] ELSE c0
-                 A  == MMul(MMul(Cols(Qu, [k \in 1..r |-> k]), DiagMat(c)), MHerm(Cols(Qw, [k \in 1..r |-> k])))
+                 A  == XMul(XMul(Cols(Qu, [k \in 1..r |-> k]), DiagMat(c)), XHerm(Cols(Qw, [k \in 1..r |-> k])))
                  sg == [k \in 1..nc |-> IF k <= r THEN c[k] * nuU * nuW ELSE 0]       \* singular value of right vector k
                  zeros == {k \in 1..nc : sg[k] = 0}
                  pos   == IdxAsc(sg, (1..nc) \ zeros)                                  \* increasing
@@ -404,7 +417,7 @@ SvdRec(id) ==
                  rk == Cardinality({k \in 1..r : c[k] # 0})
                  kk == 1 + Pick(s[o + 7], rk)                                         \* 1..rank
                  topk == Prefix(IdxDesc(c, 1..r), kk)
-                 Ak == MMul(MMul(Cols(Qu, topk), DiagMat([t \in 1..kk |-> c[topk[t]]])), MHerm(Cols(Qw, topk)))
+                 Ak == XMul(XMul(Cols(Qu, topk), DiagMat([t \in 1..kk |-> c[topk[t]]])), XHerm(Cols(Qw, topk)))
                  lrsvAsIs == IF Dev.LrsvWideMatrixIndex /\ nc - n > r THEN "IndexError" ELSE "ok"
                  pcmAsIs  == IF Dev.PcmWideMatrixShape /\ m < nc THEN "ValueError" ELSE "ok"
              IN [valid |-> TRUE, kind |-> "svd", id |-> id, A |-> A, n |-> n, k |-> kk, rows |-> m, cols |-> nc,
@@ -418,10 +431,10 @@ Svd == /\ Kind = "svd" /\ kase = None
        /\ \E id \in Lo..Hi : LET r == SvdRec(id) IN r.valid /\ kase' = r
 IsSvd == kase.kind = "svd"
 SvdSpectrum == IsSvd => LET r == Min(kase.rows, kase.cols) IN
-                  /\ MMul(MHerm(kase.Qw), kase.Qw) = IDiag(kase.cols, kase.den)
-                  /\ MMul(MHerm(kase.Qu), kase.Qu) = IDiag(kase.rows, kase.nuU * kase.nuU)
+                  /\ XMul(XHerm(kase.Qw), kase.Qw) = IDiag(kase.cols, kase.den)
+                  /\ XMul(XHerm(kase.Qu), kase.Qu) = IDiag(kase.rows, kase.nuU * kase.nuU)
                   \* A w_k = c_k nuW^2 u_k (k <= r), A w_k = 0 (k > r): so ||A w_k|| / ||w_k|| = c_k nuU nuW = sg[k]
-                  /\ MMul(kase.A, kase.Qw) = [i \in 1..kase.rows |-> [k \in 1..kase.cols |->
+                  /\ XMul(kase.A, kase.Qw) = [i \in 1..kase.rows |-> [k \in 1..kase.cols |->
                           IF k <= r THEN GMul(Gi(kase.c[k] * kase.den), kase.Qu[i][k]) ELSE GZero]]
                   /\ \A i, j \in 1..r : i # j => kase.c[i] # kase.c[j]
 SvdSelectors == IsSvd =>
@@ -431,11 +444,11 @@ SvdSelectors == IsSvd =>
                   /\ SeqToSet(kase.loIdx) \subseteq SeqToSet(kase.hiIdx)
                   /\ \A k \in 1..kase.cols : k \notin SeqToSet(kase.hiIdx) =>
                           \A j \in SeqToSet(kase.hiIdx) : kase.sg[j] <= kase.sg[k]
-                  /\ (kase.loIdx # kase.hiIdx => MIsZero(MMul(kase.A, kase.hiNum)))         \* free choice only inside the null space
+                  /\ (kase.loIdx # kase.hiIdx => MIsZero(XMul(kase.A, kase.hiNum)))         \* free choice only inside the null space
                   \* A_k agrees with A on its k dominant right singular vectors and kills the others
                   /\ \A j \in 1..kase.cols :
                         LET w == Cols(kase.Qw, <<j>>)
-                        IN  IF j \in SeqToSet(kase.topk) THEN MMul(kase.Ak, w) = MMul(kase.A, w) ELSE MIsZero(MMul(kase.Ak, w))
+                        IN  IF j \in SeqToSet(kase.topk) THEN XMul(kase.Ak, w) = XMul(kase.A, w) ELSE MIsZero(XMul(kase.Ak, w))
                   /\ \A j \in 1..Min(kase.rows, kase.cols) : j \notin SeqToSet(kase.topk) =>
                         \A t \in SeqToSet(kase.topk) : kase.c[j] < kase.c[t]
 \* the selectors are total on their documented domain (0 <= n <= cols, 1 <= k <= rank)
@@ -447,12 +460,12 @@ SelectorsTotal == IsSvd => kase.lrsvStatus = "ok" /\ kase.pcmStatus = "ok"
 FullRank(s, off, m, nc, real) ==
     LET p  == Min(m, nc)
         X  == GMat(s, off, m, nc, Alpha, real)
-        L  == [i \in 1..p |-> [j \in 1..p |-> IF i = j THEN GOne ELSE IF i > j THEN X[i][j] ELSE GZero]]
+        L  == Fix([i \in 1..p |-> [j \in 1..p |-> IF i = j THEN GOne ELSE IF i > j THEN X[i][j] ELSE GZero]])
         dg(i) == IF GIsZero(X[i][i]) THEN (IF real THEN Gi(2) ELSE G(1, 1)) ELSE X[i][i]
-        U  == [i \in 1..p |-> [j \in 1..p |-> IF i = j THEN dg(i) ELSE IF i < j THEN X[i][j] ELSE GZero]]
-        F  == MMul(L, U)
-    IN  [A |-> [i \in 1..m |-> [j \in 1..nc |-> IF i <= p /\ j <= p THEN F[i][j] ELSE X[i][j]]],
-         diag2 |-> [i \in 1..p |-> GAbs2(dg(i))[1]]]
+        U  == Fix([i \in 1..p |-> [j \in 1..p |-> IF i = j THEN dg(i) ELSE IF i < j THEN X[i][j] ELSE GZero]])
+        F  == XMul(L, U)
+    IN  [A |-> Fix([i \in 1..m |-> [j \in 1..nc |-> IF i <= p /\ j <= p THEN F[i][j] ELSE X[i][j]]]),
+         diag2 |-> TLCEval([i \in 1..p |-> GAbs2(dg(i))[1]])]
 
 GmdRec(id) ==
     LET sh == ShapeOf(id)  m == sh[1]  nc == sh[2]  p == Min(m, nc)
@@ -462,7 +475,7 @@ GmdRec(id) ==
         A  == fr.A
         \* prod sigma_i^2 = det(A^H A) (tall) = det(A A^H) (wide); for square A it is prod |u_ii|^2
         gm == IF m = nc THEN <<ProdInts(fr.diag2)>>
-              ELSE IF p <= 3 THEN <<MDet(IF m > nc THEN MMul(MHerm(A), A) ELSE MMul(A, MHerm(A)))[1]>>
+              ELSE IF p <= 3 THEN <<MDet(IF m > nc THEN XMul(XHerm(A), A) ELSE XMul(A, XHerm(A)))[1]>>
               ELSE <<>>
     IN  [valid |-> TRUE, kind |-> "gmd", id |-> id, A |-> A, p |-> p, gm2p |-> gm, diag2 |-> fr.diag2,
          req |-> {"Reconstructs", "UnitaryQ", "UnitaryP", "UpperTriangularR", "ConstantDiagonalGeoMean", "InputsUntouched"}]
@@ -476,13 +489,13 @@ GmdFullRank == IsGmd => /\ \A i \in 1..kase.p : kase.diag2[i] > 0
                                 GAbs2(MDet(kase.A)) = R(kase.gm2p[1]))
 
 \* leading principal minors (Sylvester) of a Hermitian matrix
-LeadMinor(C, k) == MDet(MBlock(C, 1, k, 1, k))
+LeadMinor(C, k) == MDet(Fix(MBlock(C, 1, k, 1, k)))
 WhitenRec(id) ==
     LET sh == ShapeOf(id)  m == sh[1]  n == sh[2]
         s  == Stream(id, 2 * m * n + 1)
         real == Pick(s[Len(s)], 3) = 0
         A  == GMat(s, 0, m, n, Alpha, real)
-        C  == MAdd(MMul(MHerm(A), A), MIdent(n))
+        C  == XAdd(XMul(XHerm(A), A), IDiag(n, 1))
         \* eigenvalue 1 of C has multiplicity n - rank(A) >= n - m
         degenerate == n - m >= 2
         white == ~(Dev.WhitenEigNotOrthogonal /\ degenerate)
@@ -494,7 +507,7 @@ Whiten == /\ Kind = "whiten" /\ kase = None
 IsWhiten == kase.kind = "whiten"
 \* C is Hermitian positive definite.  For n <= 4 TLC checks Sylvester's criterion; in general
 \* x^H C x = |A x|^2 + |x|^2 > 0 for x # 0 by construction.
-WhitenInputIsHPD == IsWhiten => /\ kase.C = MHerm(kase.C) /\ IsGInt(kase.C)
+WhitenInputIsHPD == IsWhiten => /\ kase.C = XHerm(kase.C) /\ IsGInt(kase.C)
                                 /\ (kase.n <= 4 => \A k \in 1..kase.n : LET d == LeadMinor(kase.C, k) IN d[1] > 0 /\ d[2] = 0)
                                 /\ \A i \in 1..kase.n : kase.C[i][i][1] >= 1
 Whitens == IsWhiten => kase.white
@@ -504,13 +517,13 @@ EigRelRec(id) ==
         s  == Stream(id, 2 * m * N + 3)
         real == Pick(s[Len(s)], 3) = 0
         A  == FullRank(s, 0, m, N, real).A
-        H  == MAdd(MMul(MHerm(A), A), MIdent(N))
+        H  == XAdd(XMul(XHerm(A), A), IDiag(N, 1))
     IN  [valid |-> TRUE, kind |-> "eigrel", id |-> id, H |-> H, n |-> 1 + Pick(s[Len(s) - 1], N), tr |-> MTrace(H)[1],
          req |-> {"EigenEquation", "DominantValuesInOrder", "LeastValuesInOrder", "UnitColumns", "TraceWhenAll"}]
 EigRel == /\ Kind = "eigrel" /\ kase = None
           /\ \E id \in Lo..Hi : kase' = EigRelRec(id)
 IsEigRel == kase.kind = "eigrel"
-EigRelInput == IsEigRel => kase.H = MHerm(kase.H) /\ kase.tr >= MRows(kase.H) /\ kase.n \in 1..MRows(kase.H)
+EigRelInput == IsEigRel => kase.H = XHerm(kase.H) /\ kase.tr >= MRows(kase.H) /\ kase.n \in 1..MRows(kase.H)
 
 (* ------------------------------------------------------------------------ machine --- *)
 Next == Proj \/ Chord \/ SmwPick \/ SmwStep \/ Conv \/ Eb \/ Eig \/ Svd \/ Gmd \/ Whiten \/ EigRel
